@@ -162,3 +162,9 @@ Definition nz_game (n : nat) (t : table) (g : N -> Q) : Prop :=
 (* executable superadditivity test on the 2^n x 2^n pairs (used by the Examples; sound by nz_SAb_sound) *)
 Definition nz_SAb (n : nat) (v : N -> Q) : bool :=
   forallb (fun A => forallb (fun B => if disjb A B then Qle_bool (v A + v B) (v (N.lor A B)) else true) (alln n)) (alln n).
+
+(* superadditivity up to an absolute slack (what a float game that is additive "up to rounding" satisfies) *)
+Definition nz_SA_tol (n : nat) (tol : Q) (v : N -> Q) : Prop :=
+  forall A B, bounded n A -> bounded n B -> disjb A B = true -> v A + v B <= v (N.lor A B) + tol.
+Definition nz_SAb_tol (n : nat) (tol : Q) (v : N -> Q) : bool :=
+  forallb (fun A => forallb (fun B => if disjb A B then Qle_bool (v A + v B) (v (N.lor A B) + tol) else true) (alln n)) (alln n).
